@@ -1611,6 +1611,15 @@ func runC19(ctx *Ctx) *Result {
 						ks = append(ks, k)
 					}
 				}
+				// a further commit arrives and a second invocation is started before EVERY command of the first
+				// one from the end of the compile to its last command (promotion, clean-up of the old code
+				// directory, touch LOCK, exit): as long as the first has not exited, the second must refuse
+				if probeNo == 1 || ctx.Thorough() {
+					for k := kc + 1; k <= len(r.Cmds); k++ {
+						evs := append(append([]string{}, b...), fmt.Sprintf("r:%d=cg,%d=n", k, k), "r:")
+						family = append(family, scenario{Kind: "seq", SysEmail: se, Events: evs, Src: "second-invocation-after-compile"})
+					}
+				}
 				for _, cpos := range []int{kc, kc + 1} {
 					for _, k := range ks {
 						if cpos < 1 || k <= cpos {
